@@ -5,7 +5,7 @@
 From Coq Require Import List NArith Bool Sorted String.
 From TG.Gen Require Import GenTokens GenFoldKinds.
 From TG.Model Require Import Chars Tree TreeNav Folding SymbolMap Outline CoreAst OutlineIndex OutlineSpec.
-From TG.Proofs Require Import TreeNavProofs FoldingProofs OutlineProofs OutlineIndexProofs OutlineSourceProofs.
+From TG.Proofs Require Import TreeNavProofs FoldingProofs OutlineProofs OutlineIndexProofs OutlineSourceProofs OutlineVisitProofs.
 Import ListNotations.
 Open Scope N_scope.
 
@@ -230,4 +230,52 @@ Example C18_outline_source_example :
                 [(DClass, s2n "A", 6, 7); (DDefset, s2n "S", 43, 44); (DMulticlass, s2n "M", 77, 78); (DDef, s2n "e", 92, 93)]
   | _ => False
   end.
+Proof. vm_compute. repeat split; reflexivity. Qed.
+
+(** ================= Source level, MULTI-FILE workspaces (include) =================
+    [OutlineSpec.visit_ws] is the visit of a workspace stated on the AST alone: statements in source order, an `include`
+    entering its target the first time it is met (indexed-once guard), a def registered globally unless it is lexically
+    inside a defset OF THE SAME FILE, a defset skipped with its body when its type names a class not declared earlier in
+    visit order. *)
+
+(** For EVERY workspace on which the slice hits no modelled panic: the global declarations it registers -- file, kind, name,
+    identifier range, in indexing order -- are EXACTLY the events of the syntactic visit (so the only declarations ever
+    dropped are the defsets whose type does not resolve, and what their bodies contain), and the files it indexed are the
+    files the visit entered. *)
+Theorem C18_outline_visit : forall w, oi_bad (oix w) = false ->
+  exists ev v', visit_ws w = Some (ev, v') /\ ops_fdecls (oix_ops w) = ev /\ oi_indexed (oix w) = v_indexed v'.
+Proof. exact oix_visit. Qed.
+Check C18_outline_visit : forall w, oi_bad (oix w) = false ->
+  exists ev v', visit_ws w = Some (ev, v') /\ ops_fdecls (oix_ops w) = ev /\ oi_indexed (oix w) = v_indexed v'.
+Print Assumptions C18_outline_visit.
+
+(** Per file, without any count condition: if the declarations of the workspace are well-formed ([decls_wf]: a decidable,
+    purely syntactic predicate -- the visit completes and every defset's type names only classes declared earlier in visit
+    order), then the declarations registered for file f are exactly f's class / named-def-outside-a-defset / defset /
+    multiclass statements in source preorder when f is visited (the root, or reached through include), and none otherwise. *)
+Theorem C18_outline_files_complete : forall w, oi_bad (oix w) = false -> decls_wf w = true ->
+  forall f, decls_of_file f (ops_fdecls (oix_ops w)) =
+            if mem f (oi_indexed (oix w)) then file_decls (ws_files w) f else [].
+Proof. exact outline_files_complete. Qed.
+Check C18_outline_files_complete : forall w, oi_bad (oix w) = false -> decls_wf w = true ->
+  forall f, decls_of_file f (ops_fdecls (oix_ops w)) =
+            if mem f (oi_indexed (oix w)) then file_decls (ws_files w) f else [].
+Print Assumptions C18_outline_files_complete.
+
+(** Non-vacuity: root file 0 = `class A; defset list<A> S = { include <file 1>  def a; }  include <file 1>`,
+    file 1 = `def x; class K;`, file 2 (never included) = `class Z;`.  No panic, well-formed; file 1 is entered once (inside
+    the defset): its def `x` is global there (not a member of S's outline), file 2 contributes nothing. *)
+Definition ex_def (lo hi : N) (f : N) (s : string) : stmt :=
+  SDef (Some (Val (mkR f lo hi) [Inner (SId (mkId (mkR f lo hi) (s2n s))) []])) (mkR f lo hi) [] [].
+Definition ex_ws2 : workspace :=
+  mkWs [ [ SClass (ex_id 6 7 "A") None [] [];
+           SDefset (TyList (TyClass (ex_id 20 21 "A"))) (ex_id 23 24 "S") [SInclude (mkR 0 30 45) (Some 1); ex_def 50 51 0 "a"];
+           SInclude (mkR 0 60 75) (Some 1) ];
+         [ ex_def 4 5 1 "x"; SClass (mkId (mkR 1 14 15) (s2n "K")) None [] [] ];
+         [ SClass (mkId (mkR 2 6 7) (s2n "Z")) None [] [] ] ] [].
+Example C18_outline_files_example :
+  oi_bad (oix ex_ws2) = false /\ decls_wf ex_ws2 = true /\ oi_indexed (oix ex_ws2) = [1; 0] /\
+  decls_of_file 0 (ops_fdecls (oix_ops ex_ws2)) = [(DClass, s2n "A", 6, 7); (DDefset, s2n "S", 23, 24)] /\
+  decls_of_file 1 (ops_fdecls (oix_ops ex_ws2)) = [(DDef, s2n "x", 4, 5); (DClass, s2n "K", 14, 15)] /\
+  decls_of_file 2 (ops_fdecls (oix_ops ex_ws2)) = [].
 Proof. vm_compute. repeat split; reflexivity. Qed.
